@@ -44,7 +44,7 @@ type Op struct {
 	Cfg   int  `json:"cfg,omitempty"`   // resolve: 0=case config 1=nil 2=foreign type 3=alternative config
 	SC    bool `json:"sc,omitempty"`    // resolve: the resolver result also carries a (non-nil) service config parse result
 
-	Sel   int  `json:"sel,omitempty"`          // state: 0=pool slot 1=replacement 2=removed conn 3=never-seen conn 4=replacement of the home slot of Key 5=home slot of Key 6=stand-in slot of Key 7=channel of the outstanding call Idx
+	Sel   int  `json:"sel,omitempty"`          // state: 0=pool slot 1=replacement 2=removed conn 3=never-seen conn 4=replacement of the home slot of Key 5=home slot of Key 6=stand-in slot of Key 7=channel of the outstanding call Idx 8=pool connection of a channel whose refresh is in flight
 	Idx   int  `json:"idx,omitempty"`          // state/adv: index; done/cancel: call index (-1 = most recent)
 	St    int  `json:"st,omitempty"`           // state: connectivity.State value
 	Pk    int  `json:"pk,omitempty"`           // pick: 0 = most recent picker, n>0 = stale picker (n-1) mod population
